@@ -52,7 +52,7 @@ CHECKS = {
    tech=TECH + ": HashMgrSim long-stream workload, reference-model oracle"),
  "C18": dict(cat="exploration", sec="5 SharedStateSim",
    text="Three deterministic single-thread mechanisms: (a) the archive's entire writable static storage (one page-aligned linked section) is write-protected before or after binding while hash-manager, streaming and one-shot workloads and real first calls run; only stores into <entry>_dispatched slots / self_test_status are admitted and logged by writer, any other store is reported with its symbol; (b) 2-6 coroutine tasks race first calls of the same or different dispatched entry points at the simulated cpuid/xgetbv yield points: results, final bindings and every intermediate slot value are checked; (c) two tasks with separate environments run workloads interleaved at call granularity and must reproduce their solo observable histories.",
-   note="True parallel preemption inside a kernel is not simulated; the argument is that code which never writes static storage after binding has only caller-owned objects, its own stack and constants to interfere through. std build only (the self-test verdict is C17's).",
+   note="True parallel preemption inside a kernel is not simulated; the argument is that code which never writes static storage after binding has only caller-owned objects, its own stack and constants to interfere through. A second pass runs the same modes over the FIPS_MODE archive (self-tests executing under frozen statics).",
    tech=TECH + ": SharedStateSim (frozen statics fault injection, coroutine first-call races, interleaved replay vs solo)"),
 
  "C19": dict(cat="exploration", sec="5 cross-cutting monitors",
